@@ -115,7 +115,7 @@ def cmd_detect(ids, extra=()):
 
 def cmd_seeded(ids, extra=()):
     ok = True
-    base = os.path.join(VERIF, "seeded")
+    base = os.environ.get("SEEDED_BASE", os.path.join(VERIF, "seeded"))
     for sid in sorted(os.listdir(base)) if os.path.isdir(base) else []:
         if ids and sid not in ids:
             continue
